@@ -159,9 +159,10 @@ def sensitivity(ids, names=None):
     return 0 if not missed else 2
 
 
-def specificity(ids):
+def specificity(ids, names=None):
     """Behaviour-preserving refactorings (selftest/refactorings/<ID>_<name>.diff, written by reviewers who tried to
-    provoke false alarms): the quick tier of the named check must stay silent on every one of them."""
+    provoke false alarms): the quick tier of the named check must stay silent on every one of them.  A file whose
+    name contains 'probe' is run WITH the in-batch determinism probe."""
     d0 = os.path.join(core.VERIF, "selftest", "refactorings")
     bad = 0
     rows = []
@@ -170,6 +171,8 @@ def specificity(ids):
             continue
         pid = fn.split("_")[0]
         if ids and pid not in ids:
+            continue
+        if names and not any(nm in fn for nm in names):
             continue
         d = tempfile.mkdtemp(prefix="gsim-ref-")
         t0 = time.time()
@@ -182,6 +185,8 @@ def specificity(ids):
                 continue
             env = dict(os.environ, GSIM_REPO=d, GSIM_NO_EVIDENCE="1", GSIM_NO_PROBE="1",
                        GSIM_REPLAY_DIR=os.path.join(d, "replays"))
+            if "probe" in fn:
+                env.pop("GSIM_NO_PROBE")
             p = subprocess.run([os.path.join(core.VERIF, "check"), pid, "quick"], capture_output=True, text=True, env=env,
                                timeout=1800)
             ok = p.returncode == 0
@@ -192,8 +197,9 @@ def specificity(ids):
                      f"{time.time() - t0:4.0f}s {kinds}")
         finally:
             shutil.rmtree(d, ignore_errors=True)
-    with open(os.path.join(core.VERIF, "selftest", "specificity_last.json"), "w") as f:
-        json.dump(rows, f, indent=1)
+    if not names:
+        with open(os.path.join(core.VERIF, "selftest", "specificity_last.json"), "w") as f:
+            json.dump(rows, f, indent=1)
     core.out(f"[specificity] {len(rows)} refactorings, {bad} alarms")
     return 0 if not bad else 2
 
@@ -218,7 +224,7 @@ def main(argv):
                 n = int(a[4:])
         return determinism(ids, n)
     if what == "specificity":
-        return specificity([a.upper() for a in rest if a.upper() in driver.CHECK_IDS])
+        return specificity([a.upper() for a in rest if a.upper() in driver.CHECK_IDS], names or None)
     if what == "sensitivity":
         return sensitivity([a.upper() for a in rest if a.upper() in driver.CHECK_IDS], names or None)
     core.out(__doc__)
